@@ -143,7 +143,7 @@ def run(ctx):
             "a partition that disappears from a topic keeps its cached metadata for ever: the view does not equal what the response said")
 
     # ---- R2 removal only on full refresh
-    r = ctx.rule("R2", "clients are closed only on a full refresh with brokers; existing clients get the entry of their own id", 4, "B")
+    r = ctx.rule("R2", "clients are closed only on a full refresh with brokers; existing clients get the entry of their own id", 5, "B")
     ub = ctx.func(KC + "._update_brokers")
     cu = ctx.cfg(ub)
     fu = ctx.facts(ub)
@@ -242,6 +242,24 @@ def run(ctx):
     r.check(okf, "%s#full-refresh-flag" % lm.qname, "the `all topics were fetched` flag is not computed from the caller's topic arguments "
             "(it reads a name re-bound inside the response handler)", where(lm, lm.node),
             "full refresh of a cluster with at least one topic: brokers missing from the reply are never closed")
+
+    # ... and the third table that names brokers: a group whose cached coordinator is a broker just forgotten must look it up again
+    # (the route would otherwise end in a KeyError on every request, and nothing else ever invalidates it) - either the
+    # forgetting purges the coordinator cache, or the lookup validates what it finds against the known brokers
+    GC = "_group_to_coordinator"
+    purge = []
+    for n in cu.nodes:
+        hit = any(isinstance(y, ast.Delete) and any(isinstance(t, ast.Subscript) and norm(t.value) == "self." + GC for t in y.targets) for y in n.walk()) or any(
+            (call_name(c) in ("pop", "clear") and call_recv(c) == "self." + GC) or (call_name(c) in ("reset_consumer_group_metadata", "reset_all_metadata") and call_recv(c) == "self")
+            for c in n.calls()) or (n.kind == "stmt" and isinstance(n.stmt, ast.Assign) and any(norm(t) == "self." + GC for t in n.stmt.targets))
+        if hit and (rem_p, True) in fu[n.id]:
+            purge.append(n)
+    gcf = ctx.func(KC + "._get_coordinator_for_group")
+    validates = any(isinstance(y, ast.Compare) and any(isinstance(o, (ast.In, ast.NotIn)) for o in y.ops) and any(
+        norm(c_) in ("self._brokers", "self.clients") for c_ in y.comparators) for y in ast.walk(gcf.node))
+    r.check(bool(purge) or validates, "%s#full-refresh-prunes(%s)" % (ub.qname, GC), "on a full refresh a group whose cached coordinator is a broker "
+            "missing from the reply keeps that route, and the coordinator lookup does not check it against the known brokers", where(ub, ub.node),
+            "the coordinator's broker leaves the cluster: every later group request and offset commit fails with a bare KeyError, for ever")
 
     # ---- R3 invalidation table
     r = ctx.rule("R3", "stale-routing errors reset the matching cache before any re-raise; failed sends reset everything; "
@@ -416,6 +434,14 @@ def run(ctx):
 
 
 MUTANTS = [
+    {"id": "coordinator-route-survives-its-broker", "file": "client.py",
+     "old": "            for group, coordinator in list(self._group_to_coordinator.items()):\n                if coordinator is not None and coordinator.node_id not in self._brokers:\n                    del self._group_to_coordinator[group]\n",
+     "new": "", "expect": "C08.R2", "note": "finding F47"},
+    {"id": "coordinator-routes-pruned-on-any-reply", "file": "client.py",
+     "edits": [("client.py", "            for group, coordinator in list(self._group_to_coordinator.items()):\n                if coordinator is not None and coordinator.node_id not in self._brokers:\n                    del self._group_to_coordinator[group]\n", ""),
+               ("client.py", "        # Forget brokers which no longer exist, and remove their clients.\n        if remove:\n",
+                "        if not remove:\n            self._group_to_coordinator.clear()\n        # Forget brokers which no longer exist, and remove their clients.\n        if remove:\n")],
+     "expect": "C08.R2", "note": "purged on the partial refresh instead of the full one"},
     {"id": "leader-lookup-unguarded", "file": "client.py",
      "old": "                if meta.leader == -1 or meta.leader not in brokers:", "new": "                if meta.leader == -1:",
      "expect": "C08.R1", "note": "finding F37"},
@@ -458,6 +484,10 @@ MUTANTS = [
      "new": "        host, port = self.host, self.port\n\n        def connect():\n            endpoint = self._endpointFactory(self._reactor, host, port)", "expect": "C08.R5"},
 ]
 TWINS = [
+    {"id": "coordinator-routes-filtered", "file": "client.py",
+     "old": "            for group, coordinator in list(self._group_to_coordinator.items()):\n                if coordinator is not None and coordinator.node_id not in self._brokers:\n                    del self._group_to_coordinator[group]\n",
+     "new": "            self._group_to_coordinator = {\n                g: c for g, c in self._group_to_coordinator.items() if c is None or c.node_id in self._brokers\n            }\n",
+     "note": "the cache rebuilt by a comprehension"},
     {"id": "merge-uses-local-list", "file": "client.py",
      "old": "            self.topic_partitions[topic] = []\n            for partition, meta in partitions.items():\n                self.topic_partitions[topic].append(partition)",
      "new": "            self.topic_partitions[topic] = []\n            for partition, meta in sorted(partitions.items()):\n                self.topic_partitions[topic].append(partition)"},
